@@ -206,6 +206,8 @@ def py_tables() -> list[str]:
     out.append("Definition py_imem_regs : list (string * N) := " + clist(f"({cstr(n)}, {cN(v)})" for n, v in im) + ".")
     al = [(n, int(m.value)) for n, m in O.IMEMRegisters.__members__.items()]
     out.append("Definition py_imem_aliases : list (string * N) := " + clist(f"({cstr(n)}, {cN(v)})" for n, v in al) + ".")
+    for nm in ("BP", "PX", "PY", "IMR", "USR", "SSR", "UCR", "ISR", "SCR", "LCC"):
+        out.append(f"Definition py_imem_{nm} : N := {cN(int(O.IMEMRegisters[nm].value))}.")
     # vectors & constants
     out.append(f"Definition py_interrupt_vector : N := {cN(O.INTERRUPT_VECTOR_ADDR)}.")
     out.append(f"Definition py_entry_point : N := {cN(O.ENTRY_POINT_ADDR)}.")
